@@ -444,6 +444,16 @@ func (x *Exec) Choose(n int, cost []uint8, label string) int {
 	return c
 }
 
+// OthersIdle reports whether no thread other than me is enabled.
+func (x *Exec) OthersIdle(me *Thread) bool {
+	for _, t := range x.Threads {
+		if t != me && t.isEnabled() {
+			return false
+		}
+	}
+	return true
+}
+
 // Settle runs every other thread, deterministically and without recording choices, until
 // none of them can make progress; then the caller continues with branching restored.
 func (x *Exec) Settle() {
